@@ -63,9 +63,63 @@ fn begin(quarantine: bool, ecfg: &ExecCfg) -> World {
     World::new(ecfg.clone())
 }
 
+thread_local! {
+    /// where the next runs stream their traces (crash capture), if anywhere
+    pub static STREAM_TO: std::cell::RefCell<Option<std::path::PathBuf>> = const { std::cell::RefCell::new(None) };
+}
+
+fn open_stream(w: &mut World, quarantine: bool) {
+    let path = STREAM_TO.with(|s| s.borrow().clone());
+    if let Some(p) = path {
+        let _p = seam::pause();
+        if let Ok(f) = std::fs::File::create(&p) {
+            w.stream = Some(f);
+            w.stream_line('X', format!("{{\"quarantine\": {quarantine}}}"));
+        }
+    }
+}
+
+/// Rebuild a trace from a streamed file (whatever was written before the process died).
+pub fn trace_from_stream(text: &str) -> Option<Trace> {
+    let mut events: Vec<Event> = vec![];
+    let mut suffix = Suffix::None;
+    let mut quarantine = true;
+    for line in text.lines() {
+        let (tag, rest) = line.split_at(line.len().min(2));
+        match tag {
+            "X " => {
+                events.clear();
+                suffix = Suffix::None;
+                quarantine = !rest.contains("false");
+            }
+            "E " => {
+                if let Ok(e) = serde_json::from_str::<Event>(rest) {
+                    events.push(e);
+                }
+            }
+            "O " => {
+                if let (Ok(op), Some(last)) = (serde_json::from_str::<Op>(rest), events.last_mut()) {
+                    match last {
+                        Event::Mutate { ops, .. } | Event::NewArena { ops, .. } | Event::Collect { then: MarkedAction::Finalize(ops), .. } => ops.push(op),
+                        _ => {}
+                    }
+                }
+            }
+            "S " => {
+                if let Ok(s) = serde_json::from_str::<Suffix>(rest) {
+                    suffix = s;
+                }
+            }
+            _ => {}
+        }
+    }
+    if events.is_empty() { None } else { Some(Trace { events, suffix, quarantine }) }
+}
+
 /// Generate and execute a run from one seed.
 pub fn run_generated(seed: u64, gcfg: &GenCfg, ecfg: &ExecCfg, suffix: Suffix) -> RunOutcome {
     let mut w = begin(gcfg.quarantine, ecfg);
+    open_stream(&mut w, gcfg.quarantine);
     let mut g = Gen::new(seed, gcfg.clone());
     let mut events: Vec<Event> = vec![];
     let mut ev = g.first_event(&w);
@@ -88,6 +142,7 @@ pub fn run_generated(seed: u64, gcfg: &GenCfg, ecfg: &ExecCfg, suffix: Suffix) -
 /// Execute a recorded trace: no PRNG anywhere.
 pub fn run_replay(trace: &Trace, ecfg: &ExecCfg) -> RunOutcome {
     let mut w = begin(trace.quarantine, ecfg);
+    open_stream(&mut w, trace.quarantine);
     let mut events = trace.events.clone();
     for ev in events.iter_mut() {
         if !w.ok() {
